@@ -139,6 +139,13 @@ func TestLbvcScenarioProposalRaces(t *testing.T) {
 				}
 			}
 			if want("ShrinkISR") {
+				// (not proposed: applying it makes Server.Apply panic on every server)
+				shr := &proto.RaftLog{Op: proto.Op_SHRINK_ISR, ShrinkISROp: &proto.ShrinkISROp{Stream: "bar", Partition: 0, ReplicaToRemove: "not-a-replica", Leader: l0, LeaderEpoch: e0}}
+				if err := s1.metadata.checkShrinkISRPreconditions(shr); err == nil {
+					problems = append(problems, "an in-sync-set shrink naming \"not-a-replica\" (current leader and epoch) passes the proposal-time check; applying it fails on every server (partition.RemoveFromISR: not a replica) and Server.Apply panics on an apply error")
+				}
+			}
+			if want("ShrinkISR") {
 				st := s1.metadata.ShrinkISR(context.Background(), &proto.ShrinkISROp{Stream: "bar", Partition: 0, ReplicaToRemove: l0, Leader: l0, LeaderEpoch: e0})
 				if l1, _ := bp.GetLeader(); !bp.inISR(l1) {
 					i := bp.GetISR()
